@@ -1,4 +1,4 @@
-import SctpVerif.Proofs.Sender.Quiet
+import SctpVerif.Proofs.Sender.Still
 /-!
 TSN assignment. `moved s ops` = the chunks `movePendingDataChunkToInflightQueue` moved from the pending queue to in
 flight along a run, in order. Along EVERY run (any SACK contents, any oracle values, any configuration):
@@ -11,7 +11,8 @@ flight along a run, in order. Along EVERY run (any SACK contents, any oracle val
   the (empty) chunks dropped from the pending queue: every written chunk is moved AT MOST ONCE — it gets at most
   one TSN.
 -/
-namespace SenderProofs
+namespace SenderTsn
+open SenderProofs
 open Gen Sender
 
 abbrev Frag := BitVec 16 × Nat × BitVec 32 × Bool × Bool × Bool × BitVec 16 × BitVec 32 × BitVec 32
@@ -219,7 +220,7 @@ structure MInv (t0 : BitVec 32) (W mv : List Chunk) (s : St) : Prop where
   inf : ∀ x ∈ s.inflight, FromMoved mv x
   cnt : ∃ D, CntEq W (s.pending ++ mv ++ D)
 
-theorem MInv.quiet {t0 : BitVec 32} {W mv : List Chunk} {s s' : St} (h : MInv t0 W mv s) (hq : Quiet s s') : MInv t0 W mv s' := by
+theorem MInv.still {t0 : BitVec 32} {W mv : List Chunk} {s s' : St} (h : MInv t0 W mv s) (hq : Still s s') : MInv t0 W mv s' := by
   refine ⟨by rw [hq.q.next]; exact h.next, h.tsn, fun x hx => ?_, by rw [hq.q.pen]; exact h.cnt⟩
   obtain ⟨c, hc, t, f⟩ := hq.k x hx
   obtain ⟨m, hm, t', f'⟩ := h.inf c hc
@@ -274,13 +275,13 @@ theorem gather_minv {t0 : BitVec 32} {W mv : List Chunk} (s : St) (orc : Oracle)
   split
   · simp only [List.map_nil, List.append_nil]
     exact ⟨h, trivial, fun e he => by simp [GatherOut.packets] at he⟩
-  · obtain ⟨q1, e1⟩ := gatherRtx_quiet s orc
-    have i1 := h.quiet q1
+  · obtain ⟨q1, e1⟩ := gatherRtx_still s orc
+    have i1 := h.still q1
     have m2 := gatherNew_moves orc.allow (gatherRtx s orc).2.2 (gatherRtx s orc).1 sel
     have i2 := i1.moves m2
-    obtain ⟨q3, e3⟩ := gatherFast_quiet (gatherNew (gatherRtx s orc).1 orc.allow (gatherRtx s orc).2.2 sel).1 orc.allow
+    obtain ⟨q3, e3⟩ := gatherFast_still (gatherNew (gatherRtx s orc).1 orc.allow (gatherRtx s orc).2.2 sel).1 orc.allow
       (gatherNew (gatherRtx s orc).1 orc.allow (gatherRtx s orc).2.2 sel).2.b
-    have i3 := i2.quiet q3
+    have i3 := i2.still q3
     refine ⟨⟨i3.next, i3.tsn, i3.inf, i3.cnt⟩, ?_, fun e he => ?_⟩
     · show (gatherFast _ _ _).1.cfg = s.cfg
       rw [q3.q.cfg, m2.cfg, q1.q.cfg]
@@ -335,14 +336,14 @@ theorem step_minv {t0 : BitVec 32} {W mv : List Chunk} (s : St) (op : Op) (h : M
     exact gather_minv s orc sel h
   | sack cum arwnd gaps marks =>
     simp only [writtenBy, movedBy, emittedBy, List.append_nil, step]
-    have q := sack_quiet s cum arwnd gaps marks
-    exact ⟨h.quiet q, q.q.cfg, fun e he => by cases he⟩
+    have q := sack_still s cum arwnd gaps marks
+    exact ⟨h.still q, q.q.cfg, fun e he => by cases he⟩
   | t3 =>
     simp only [writtenBy, movedBy, emittedBy, List.append_nil, step]
-    exact ⟨h.quiet (t3_quiet s), (t3_quiet s).q.cfg, fun e he => by cases he⟩
+    exact ⟨h.still (t3_still s), (t3_still s).q.cfg, fun e he => by cases he⟩
   | tick ms n marks =>
     simp only [writtenBy, movedBy, emittedBy, List.append_nil, step]
-    exact ⟨h.quiet (tick_quiet s ms n marks), (tick_quiet s ms n marks).q.cfg, fun e he => by cases he⟩
+    exact ⟨h.still (tick_still s ms n marks), (tick_still s ms n marks).q.cfg, fun e he => by cases he⟩
 
 theorem run_minv {t0 : BitVec 32} {W mv : List Chunk} (s : St) (ops : List Op) (h : MInv t0 W mv s) :
     MInv t0 (W ++ written s ops) (mv ++ moved s ops) (run s ops) ∧ (run s ops).cfg = s.cfg ∧
@@ -382,4 +383,4 @@ theorem moved_count_le (cfg : Cfg) (tsn peerRwnd : BitVec 32) (ops : List Op) (q
   simp only [List.map_append, List.countP_append] at this
   omega
 
-end SenderProofs
+end SenderTsn
